@@ -88,3 +88,35 @@ def _with_dt(self, args, kwargs, fr, node):
     e, d = args
     e = e if isinstance(e, SV) else self.sv(e)
     return SV(self.ct.with_common(e.ty.sort, e.term, 'data_type', self.term(d, TDT())), e.ty)
+
+
+@function_model('specs.sem.forall_env')
+def _forall_env(self, args, kwargs, fr, node):
+    """forall_env(lambda rho: P) - universal quantification over the valuations of the reference semantics.
+    The body is evaluated once on a fresh constant (no forking inside) and closed with ForAll."""
+    from .classtable import TAbs
+    from .values import Closure, NeedFork
+    f = args[0]
+    if not isinstance(f, Closure):
+        raise Untranslatable('forall_env expects a lambda')
+    ty = TAbs('Env')
+    rho = z3.Const(self.ex.fresh_name('rho'), ty.z3sort())
+    ex = self.ex
+    npc = len(ex.st.pc)
+    nobl = len(self.obligations)
+    ex.nofork += 1
+    try:
+        r = self.call_closure(f, [SV(rho, ty)], {}, fr, node)
+        body = self.bterm(self.truth_term(r))
+        extra = list(ex.st.pc[npc:])
+    except NeedFork:
+        raise Untranslatable(f'forall_env body forks at line {getattr(node, "lineno", "?")}')
+    finally:
+        ex.nofork -= 1
+        del ex.st.pc[npc:]
+    if len(self.obligations) != nobl:
+        raise Untranslatable('forall_env body with proof obligations')
+    if extra:
+        body = z3.Implies(z3.And(*extra), body)
+    from .classtable import TBool
+    return SV(z3.ForAll([rho], body), TBool())
